@@ -538,7 +538,8 @@ LooseOK(x, R) ==
                                                                                       \* its skipped_keys are shared by all workers; the in-memory
                                                                                       \* rollback may leave an empty document file)
             \/ /\ IsCli /\ inP /\ st.present                 \* the command exits while pool workers are mid-way (daemon threads are killed):
-               /\ {f.p : f \in AllFiles(pj.dir, <<>>)} \subseteq {f.p : f \in AllFiles(dj.dir, <<>>) \cup AllFiles(st.job.dir, <<>>)}   \* any part of the
+               /\ {f.p : f \in {g \in AllFiles(pj.dir, <<>>) : g.p # <<BAKFN>> /\ \A i \in 1..Len(g.p) : g.p[i] \in ToSet(x.o.nord)}}     \* (a roll-back copy or a
+                     \subseteq {f.p : f \in AllFiles(dj.dir, <<>>) \cup AllFiles(st.job.dir, <<>>)}               \* temporary file may be left behind) any part of the
                /\ {f.p : f \in AllFiles(dj.dir, <<>>)} \subseteq {f.p : f \in AllFiles(pj.dir, <<>>)}       \* job's step, a file possibly half-written
                /\ AllDirs(pj.dir, <<>>) \subseteq AllDirs(dj.dir, <<>>) \cup AllDirs(st.job.dir, <<>>)
             \/ /\ x.o.dryRun /\ inP                                                   \* dry run: no file content changes, directories may appear
